@@ -1,3 +1,6 @@
+use std::ptr::NonNull;
+
+use super::cao_lang_object::{CaoLangObject, GcMarker};
 use crate::{
     alloc::AllocProxy,
     collections::hash_map::{CaoHashMap, MapError},
@@ -9,6 +12,31 @@ pub struct CaoLangTable {
     map: CaoHashMap<Value, Value, AllocProxy>,
     keys: Vec<Value>,
     alloc: AllocProxy,
+}
+
+/// Protects an object from the collector for a scope, then restores the marker it had
+struct Keep(Option<(NonNull<CaoLangObject>, GcMarker)>);
+
+impl Keep {
+    fn new(value: Value) -> Self {
+        match value {
+            Value::Object(mut o) => unsafe {
+                let marker = std::mem::replace(&mut o.as_mut().marker, GcMarker::Protected);
+                Self(Some((o, marker)))
+            },
+            _ => Self(None),
+        }
+    }
+}
+
+impl Drop for Keep {
+    fn drop(&mut self) {
+        if let Some((mut o, marker)) = self.0.take() {
+            unsafe {
+                o.as_mut().marker = marker;
+            }
+        }
+    }
 }
 
 impl Clone for CaoLangTable {
@@ -72,6 +100,10 @@ impl CaoLangTable {
                     *r = value;
                 }
                 None => {
+                    // growing the map may start a collection and the new entry can not be
+                    // reached through this table yet
+                    let _key = Keep::new(key);
+                    let _value = Keep::new(value);
                     this.map
                         .insert(key, value)
                         .map_err(|_| ExecutionErrorPayload::OutOfMemory)?;
